@@ -27,11 +27,13 @@ pub trait One: Sized {
 pub struct BigUint(u128);
 
 impl BigUint {
+    #[inline]
     pub fn to_u128(&self) -> u128 {
         self.0
     }
 }
 impl core::fmt::Display for BigUint {
+    #[inline]
     fn fmt(&self, f: &mut core::fmt::Formatter<'_>) -> core::fmt::Result {
         write!(f, "{}", self.0)
     }
@@ -43,20 +45,24 @@ macro_rules! biguint_from {
 }
 biguint_from!(u8, u16, u32, u64, u128, usize);
 impl Zero for BigUint {
+    #[inline]
     fn zero() -> Self {
         BigUint(0)
     }
+    #[inline]
     fn is_zero(&self) -> bool {
         self.0 == 0
     }
 }
 impl One for BigUint {
+    #[inline]
     fn one() -> Self {
         BigUint(1)
     }
 }
 impl Add for BigUint {
     type Output = BigUint;
+    #[inline]
     fn add(self, o: BigUint) -> BigUint {
         match self.0.checked_add(o.0) {
             Some(v) => BigUint(v),
@@ -66,12 +72,14 @@ impl Add for BigUint {
 }
 impl Add<u64> for BigUint {
     type Output = BigUint;
+    #[inline]
     fn add(self, o: u64) -> BigUint {
         self + BigUint::from(o)
     }
 }
 impl Sub for BigUint {
     type Output = BigUint;
+    #[inline]
     fn sub(self, o: BigUint) -> BigUint {
         match self.0.checked_sub(o.0) {
             Some(v) => BigUint(v),
@@ -81,6 +89,7 @@ impl Sub for BigUint {
 }
 impl Mul for BigUint {
     type Output = BigUint;
+    #[inline]
     fn mul(self, o: BigUint) -> BigUint {
         match self.0.checked_mul(o.0) {
             Some(v) => BigUint(v),
@@ -89,6 +98,7 @@ impl Mul for BigUint {
     }
 }
 impl core::iter::Sum<u64> for BigUint {
+    #[inline]
     fn sum<I: Iterator<Item = u64>>(it: I) -> BigUint {
         let mut acc = BigUint(0);
         for x in it {
@@ -98,6 +108,7 @@ impl core::iter::Sum<u64> for BigUint {
     }
 }
 impl core::iter::Sum<BigUint> for BigUint {
+    #[inline]
     fn sum<I: Iterator<Item = BigUint>>(it: I) -> BigUint {
         let mut acc = BigUint(0);
         for x in it {
@@ -112,11 +123,13 @@ impl core::iter::Sum<BigUint> for BigUint {
 pub struct BigInt(i128);
 
 impl BigInt {
+    #[inline]
     pub fn to_i128(&self) -> i128 {
         self.0
     }
 }
 impl core::fmt::Display for BigInt {
+    #[inline]
     fn fmt(&self, f: &mut core::fmt::Formatter<'_>) -> core::fmt::Result {
         write!(f, "{}", self.0)
     }
@@ -128,6 +141,7 @@ macro_rules! bigint_from {
 }
 bigint_from!(u8, u16, u32, u64, usize, i8, i16, i32, i64, i128, isize);
 impl From<BigUint> for BigInt {
+    #[inline]
     fn from(x: BigUint) -> Self {
         if x.0 > i128::MAX as u128 {
             out_of_model("BigInt from BigUint");
@@ -136,20 +150,24 @@ impl From<BigUint> for BigInt {
     }
 }
 impl Zero for BigInt {
+    #[inline]
     fn zero() -> Self {
         BigInt(0)
     }
+    #[inline]
     fn is_zero(&self) -> bool {
         self.0 == 0
     }
 }
 impl One for BigInt {
+    #[inline]
     fn one() -> Self {
         BigInt(1)
     }
 }
 impl Add for BigInt {
     type Output = BigInt;
+    #[inline]
     fn add(self, o: BigInt) -> BigInt {
         match self.0.checked_add(o.0) {
             Some(v) => BigInt(v),
@@ -159,6 +177,7 @@ impl Add for BigInt {
 }
 impl Sub for BigInt {
     type Output = BigInt;
+    #[inline]
     fn sub(self, o: BigInt) -> BigInt {
         match self.0.checked_sub(o.0) {
             Some(v) => BigInt(v),
@@ -168,6 +187,7 @@ impl Sub for BigInt {
 }
 impl Mul for BigInt {
     type Output = BigInt;
+    #[inline]
     fn mul(self, o: BigInt) -> BigInt {
         match self.0.checked_mul(o.0) {
             Some(v) => BigInt(v),
@@ -177,6 +197,7 @@ impl Mul for BigInt {
 }
 impl Neg for BigInt {
     type Output = BigInt;
+    #[inline]
     fn neg(self) -> BigInt {
         BigInt(-self.0)
     }
@@ -196,12 +217,15 @@ pub struct BigRational(i64);
 
 impl BigRational {
     /// model-only constructor: `raw / 2^FRAC`
+    #[inline]
     pub fn from_raw(raw: i64) -> Self {
         BigRational(raw)
     }
+    #[inline]
     pub fn raw(&self) -> i64 {
         self.0
     }
+    #[inline]
     pub fn from_integer(i: BigInt) -> Self {
         if i.0 > (i64::MAX >> FRAC) as i128 || i.0 < (i64::MIN >> FRAC) as i128 {
             out_of_model("BigRational::from_integer range");
@@ -209,6 +233,7 @@ impl BigRational {
         BigRational((i.0 as i64) << FRAC)
     }
     /// `numer / denom`; `denom` must be a power of two not larger than `2^FRAC`.
+    #[inline]
     pub fn new(numer: BigInt, denom: BigInt) -> Self {
         if denom.0 == 0 {
             panic!("denominator == 0");
@@ -230,18 +255,21 @@ impl BigRational {
         }
         BigRational((n as i64) << (FRAC - found))
     }
+    #[inline]
     fn add_(self, o: Self) -> Self {
         match self.0.checked_add(o.0) {
             Some(v) => BigRational(v),
             None => out_of_model("BigRational add"),
         }
     }
+    #[inline]
     fn sub_(self, o: Self) -> Self {
         match self.0.checked_sub(o.0) {
             Some(v) => BigRational(v),
             None => out_of_model("BigRational sub"),
         }
     }
+    #[inline]
     fn div_(self, o: Self) -> Self {
         if o.0 == 0 {
             panic!("division by zero");
@@ -257,6 +285,7 @@ impl BigRational {
         }
         out_of_model("BigRational division by something other than 1 or 2")
     }
+    #[inline]
     fn mul_(self, o: Self) -> Self {
         let p = (self.0 as i128) * (o.0 as i128);
         if p & ((ONE as i128) - 1) != 0 {
@@ -270,24 +299,29 @@ impl BigRational {
     }
 }
 impl Zero for BigRational {
+    #[inline]
     fn zero() -> Self {
         BigRational(0)
     }
+    #[inline]
     fn is_zero(&self) -> bool {
         self.0 == 0
     }
 }
 impl One for BigRational {
+    #[inline]
     fn one() -> Self {
         BigRational(ONE)
     }
 }
 impl core::fmt::Debug for BigRational {
+    #[inline]
     fn fmt(&self, f: &mut core::fmt::Formatter<'_>) -> core::fmt::Result {
         write!(f, "{}/{}", self.0, ONE)
     }
 }
 impl core::fmt::Display for BigRational {
+    #[inline]
     fn fmt(&self, f: &mut core::fmt::Formatter<'_>) -> core::fmt::Result {
         write!(f, "{}/{}", self.0, ONE)
     }
@@ -326,11 +360,13 @@ rat_ops!(Div, div, div_);
 rat_ops!(Mul, mul, mul_);
 impl Neg for BigRational {
     type Output = BigRational;
+    #[inline]
     fn neg(self) -> BigRational {
         BigRational(-self.0)
     }
 }
 impl BigRational {
+    #[inline]
     pub fn cmp_(&self, o: &Self) -> Ordering {
         self.0.cmp(&o.0)
     }
